@@ -4,7 +4,10 @@
 (* frappy/params.py clone/copy/merge, frappy/properties.py, frappy/mixins.py).  *)
 (*                                                                              *)
 (* A program is a sequence of operations DefClass / Instantiate / Mutate (and   *)
-(* Reset = start over in a fresh world).  After every operation every live      *)
+(* Reset = start over in a fresh world).  A class body overrides accessibles AND  *)
+(* module-level properties (group, visibility, slowinterval, custom Property) by *)
+(* a bare value or a new Property(...) at any level of the chain; both belong to  *)
+(* the description.  After every operation every live      *)
 (* class and instance has an observable description, an OPAQUE value.  The      *)
 (* specification does not say what the description of a class is (it does not   *)
 (* prescribe the inheritance merge); it says                                    *)
